@@ -340,6 +340,10 @@ CLAIMED["C06"]["text"] += (" write_snapshot's meta-sync block (region, structura
     "modification time (Engine F).")
 CLAIMED["C01"]["text"] += (" Snapshot discovery orders mtime-ranked candidates by the raw modification time (a truncated key would let "
     "wall-clock speed decide which snapshot a boot loads).")
+CLAIMED["C01"]["text"] += (" The tie-break contracts on the turn path are run by this check as well: _rank_by_cosine ((-score, id) order), "
+    "_match_keywords (seeds in sorted label order), the output region of _t1_one_graph (touched nodes in strictly increasing id order).")
+CLAIMED["C20"]["text"] += (" The structural half of the store / cache-manager fail-soft is run by this check too: every store call and every "
+    "cache-manager call of apply_changes sits inside a catch-all handler.")
 CLAIMED["C02"]["text"] += (" Value flow: the persistence layer (clematis/engine/snapshot.py, which runs whatever the gates say) reads no "
     "validator-accepted key of the graph / perf / scheduler subtrees (accepted-key sets read from configs/validate.py on every run).")
 CLAIMED["C10"]["text"] += (" The capture path of a compute phase is under contract too (shared with C16): LogMux.write/dump/clear (append in "
